@@ -464,6 +464,9 @@ func (c *conn) WriteTo(w io.Writer) (n int64, err error) {
 }
 
 func (c *conn) Flush() error {
+	if !c.opened && !c.isDatagram {
+		return net.ErrClosed
+	}
 	if err := c.loop.write(c); err != nil {
 		return err
 	}
